@@ -250,6 +250,9 @@ static std::vector<Spec> histCircuits() {
   std::vector<Spec> v = gpRepresentatives();
   v.resize(3);
   for (auto &s : v) { s.devs = {{F_maxNbSteps, 12}}; s.seed = 3; }
+  // non-default but accepted options on two of the circuits: initial steps without penalty, other net models, reordering
+  v[1].devs = {{F_maxNbSteps, 12}, {F_nbInitialSteps, 2}, {F_reorderingMaxNbCells, 3}};
+  v[2].devs = {{F_maxNbSteps, 9}, {F_nbInitialSteps, 3}, {F_netModel, 1}, {F_approximationDistance, 7.0}, {F_shiftMaxNbCells, 3}};
   return v;
 }
 
@@ -325,6 +328,17 @@ static vf::Verdicts evalTsan(const Spec &inst, vf::Ctx &ctx) {
 }
 
 static void enumerateAll(const std::function<void(const Spec &)> &f) {
+  if (gPass == "memcheck") {
+    // every single run, and every pair starting with a global placement, under valgrind memcheck (a result that depends on
+    // uninitialised memory depends on the history of the process)
+    int nItems = 3 * 6;
+    for (int a = 0; a < nItems; ++a) {
+      Spec s; s.aux = a + 1; f(s);
+      if ((a % 6) / 2 == 0 && a % 2 == 0)
+        for (int b = 0; b < nItems; b += 2) { Spec t; t.aux = (a + 1) + 32 * (b + 1); f(t); }
+    }
+    return;
+  }
   if (gPass == "hist") {
     int nItems = 3 * 6;
     for (int a = 0; a < nItems; ++a) {
@@ -391,6 +405,9 @@ int main(int argc, char **argv) {
   else if (gPass == "tsan")
     c.rule = "pass tsan: the same circuits and parameter sets free-running (no scheduler) in a ThreadSanitizer build, global placement with and without callback followed by detailed placement; "
              "a race report halts the worker and is attributed to the instance";
+  else if (gPass == "memcheck")
+    c.rule = "pass memcheck: every single run and every pair starting with a global placement (3 circuits with default and non-default accepted options x 3 stages x callback) executed under "
+             "valgrind memcheck; the first use of uninitialised memory or invalid access kills the worker and is attributed to the instance";
   else
     c.rule = "pass hist: every sequence of length <= 2 (3 on a third of the product in thorough) of independent runs over 3 circuits x {placeGlobal, legalize, placeDetailed} x {callback, none} in one "
              "process, each on a copy and on the original with the callback toggled; the last run of the sequence is compared with the same run alone in a freshly forked process";
@@ -400,7 +417,7 @@ int main(int argc, char **argv) {
   c.enumerate = enumerateAll;
   c.encode = [](const Spec &s) { return encode(s); };
   c.decode = [](const std::string &s) { return decode(s); };
-  c.eval = [](const Spec &s, vf::Ctx &ctx) { return gPass == "hist" ? evalHist(s, ctx) : (gPass == "tsan" ? evalTsan(s, ctx) : evalSched(s, ctx)); };
+  c.eval = [](const Spec &s, vf::Ctx &ctx) { return (gPass == "hist" || gPass == "memcheck") ? evalHist(s, ctx) : (gPass == "tsan" ? evalTsan(s, ctx) : evalSched(s, ctx)); };
   c.instanceTimeout = 600;
   // the checks replay by themselves (sched: twice); under a real race a violation need not reproduce, which is itself the finding
   c.replayBeforeReport = false;
